@@ -208,7 +208,7 @@ def libTask : String → Option TaskDef
       | some xs => sumInts xs
       | none => .unk
   | "ev.raiser" => some <| mkTask [p "kind", p "tag"] fun a => raiserE (a "kind") (a "tag")
-  | "ev.busy" => some <| mkTask [p "tag"] fun a =>
+  | "ev.busy" | "ev.busy_lambda" | "ev.busy_local" => some <| mkTask [p "tag"] fun a =>
       match fmtS (a "tag") with
       | some t => .err ⟨"BusyError", "B-" ++ t⟩
       | none => .unk
